@@ -181,6 +181,16 @@ impl TulispObject {
     /// Attaches the other list to the end of self.  Returns an Error if `self`
     /// is not a list.
     pub fn append(&self, other_list: TulispObject) -> Result<&TulispObject, Error> {
+        if !self.listp() {
+            // Checked before `self` is mutably borrowed: building the message
+            // may need to read `self` again, when `other_list` contains it.
+            return Err(Error::new(
+                crate::ErrorKind::TypeMismatch,
+                format!("unable to append: {}", other_list),
+            )
+            .with_trace(other_list)
+            .with_trace(self.clone()));
+        }
         self.rc
             .borrow_mut()
             .append(other_list)
